@@ -70,9 +70,14 @@ def sonar_doc(paths) -> dict:
     }
 
 
-def _argv(mode, inc, exc):
+SEM_TRIGGER = 'import requests\nrequests.get("http://example.com", verify=False)\n'
+
+
+def _argv(mode, inc, exc, semgrep=False):
     argv = ["{dir}", "--output", "{out}"]
-    if mode == "ff":
+    if mode == "ff" and semgrep:
+        argv += ["--codemod-include", "pixee:python/requests-verify"]
+    elif mode == "ff":
         argv += ["--codemod-include", "pixee:python/use-set-literal"]
     else:
         argv += ["--codemod-include", "sonar:python/secure-random", "--sonar-issues-json", "{res}/sonar.json"]
@@ -168,22 +173,31 @@ def run(chk: Check) -> None:
     pool = list(cases)
     chk.rng.shuffle(pool)
     # always include the default runs of both modes
-    e2e = [c for c in cases if not c[0]["inc"] and not c[0]["exc"]] + pool[: chk.pick(140, 1500)]
+    empty_sel = [c for c in cases if c[0]["mode"] == "ff" and not c[1]["may"] - frozenset()][:12]
+    e2e = [c for c in cases if not c[0]["inc"] and not c[0]["exc"]] + empty_sel * 1 + pool[: chk.pick(140, 1500)]
+    # put the empty selections where the rule-detected codemod is used (every sixth)
+    for j, c in enumerate(empty_sel):
+        pos = 6 * (j + 1)
+        if pos < len(e2e):
+            e2e.insert(pos, c)
     scenarios = []
     for k, (sc, exp) in enumerate(e2e):
         mode = sc["mode"]
         inc = [PATS[i - 1] for i in sc["inc"]]
         exc = [PATS[i - 1] for i in sc["exc"]]
-        files, outside = tree_files(FF_TRIGGER if mode == "ff" else SAST_TRIGGER)
+        # every sixth find-and-fix scenario uses a rule-detected codemod (its rule engine sees the tree as well);
+        # its trigger sits on line 2, like the SAST one, so it is only used where the line-level expectation agrees
+        sem = mode == "ff" and k % 6 == 0 and not any(":" in p for p in inc + exc)
+        files, outside = tree_files(SEM_TRIGGER if sem else (FF_TRIGGER if mode == "ff" else SAST_TRIGGER))
         scenarios.append(
             {
                 "id": f"C05-{k}",
                 "files": files,
                 "outside": outside,
                 "resfiles": {"sonar.json": sonar_doc(rels)} if mode == "sast" else {},
-                "steps": [{"argv": _argv(mode, inc, exc),
+                "steps": [{"argv": _argv(mode, inc, exc, sem),
                            "expect": {"mayChange": [rels[i - 1] for i in exp["may"]], "mustChange": [rels[i - 1] for i in exp["must"]]}}],
-                "_meta": {"mode": mode, "include": inc, "exclude": exc},
+                "_meta": {"mode": mode + ("/rule-detected" if sem else ""), "include": inc, "exclude": exc},
             }
         )
     results = runner.run_many(scenarios, chunksize=2)
